@@ -408,7 +408,7 @@ PROPS["C11"] = {
     "assumptions": ["Close is called once", "Bind* is not called twice for a bound SSRC"],
     "quick": [
         {"test": "^TestRegress", "timeout": 200},
-        {"test": "^TestLifecycle$", "checks": 250, "steps": 40, "shards": 8, "shrinktime": "15s", "timeout": 600},
+        {"test": "^TestLifecycle$", "checks": 300, "steps": 40, "shards": 12, "shrinktime": "15s", "timeout": 600},
     ],
     "thorough": [
         {"test": "^TestRegress", "timeout": 200},
